@@ -32,6 +32,10 @@ type Manifest struct {
 	Deps    []Requirement `json:"deps"`
 	// Management (Maven only) are the <dependencyManagement> entries.
 	Management []Requirement `json:"management,omitempty"`
+	// InertProfile (Maven only) adds a profile without activation that carries its own
+	// <dependencyManagement> for an unrelated artifact. It never takes part in resolution;
+	// it only varies the shape of the document the writer has to patch.
+	InertProfile bool `json:"inert_profile,omitempty"`
 }
 
 // FileName is the base name the manifest has to have on disk.
@@ -122,6 +126,11 @@ func (m Manifest) renderPOM() []byte {
 			pomDep(&b, "    ", d)
 		}
 		b.WriteString("  </dependencies>\n")
+	}
+	if m.InertProfile {
+		b.WriteString("  <profiles>\n    <profile>\n      <id>verif-inert</id>\n      <dependencyManagement>\n        <dependencies>\n")
+		pomDep(&b, "          ", Requirement{Name: "org.verif.unrelated:nothing", Req: "1.0.0"})
+		b.WriteString("        </dependencies>\n      </dependencyManagement>\n    </profile>\n  </profiles>\n")
 	}
 	b.WriteString("</project>\n")
 	return []byte(b.String())
